@@ -61,9 +61,10 @@ func runPipe(c *Ctx) {
 	p.sh = c.newShard("p", runnerP, "caseP", "mismatches", viol)
 	p.sh.limit = 12
 	c.rep.Rule = "one case = one run of a real engine (1-8 producers mixing IngestRows/Flush/Start, Stop graceful / with deadline / with a late-AfterFunc context / never, " +
-		"buffered, drained, abandoned and nil done channels, limit- and time-triggered flushes, delayed / failing / wedged stores); the hook + store + harness event log is " +
-		"replayed through Pipeline.step and the final state compared with acks received and rows visible. Non-trivial: >= 2 producers, or a Stop racing ingest, or a store fault, " +
-		"or a limit-triggered flush. Distinct by the label sequence of the log."
+		"buffered, drained, late-drained, abandoned and nil done channels, limit- and time-triggered flushes, delayed / failing / wedged stores, all row-data compressions; " +
+		"directed: drain-path answers, cleanup-fault pairs, stalls at every store call kind under busy / trickling / rowless producers, bursts against a full flush queue, trickles below MaxBufferedTime); " +
+		"the hook + store + harness event log is replayed through Pipeline.step and the final state compared with acks received and rows visible. " +
+		"Non-trivial: >= 2 producers, or a Stop racing ingest, or a store fault or stall, or a limit- or ticker-triggered flush. Distinct by the label sequence of the log."
 
 	if p.wants("C05", "C08") {
 		pDirectedD6(p)
@@ -1231,11 +1232,25 @@ func pTimeFlushTrickle(p *pipeCtx, idx int) {
 		}
 		return -1, 0
 	}
+	// a batch counts as overdue only if it is still unanswered well after it first looked overdue, with the
+	// trickle going on meanwhile (a process that was frozen for a moment must get the chance to catch up)
+	candID, candAt := -1, time.Time{}
+	lateID, lateBy := -1, time.Duration(0)
+	observe := func() {
+		id, by := late()
+		switch {
+		case id < 0:
+			candID = -1
+		case id != candID:
+			candID, candAt = id, time.Now()
+		case time.Since(candAt) >= 150*time.Millisecond:
+			lateID, lateBy = id, by
+		}
+	}
 	// the trickle lasts until every batch of its first half has been answered, or one is overdue
 	minBatches := 6 + rng.IntN(6)
-	lateID, lateBy := -1, time.Duration(0)
 	start := time.Now()
-	for b := 0; lateID < 0 && time.Since(start) < limit+time.Second; b++ {
+	for b := 0; lateID < 0 && time.Since(start) < limit+2*time.Second; b++ {
 		part := 0
 		switch shape {
 		case "new-partition", "new-partition-mixed":
@@ -1258,8 +1273,8 @@ func pTimeFlushTrickle(p *pipeCtx, idx int) {
 			sent = append(sent, acc{id, time.Now()})
 		}
 		time.Sleep(gap)
-		lateID, lateBy = late()
-		if lateID < 0 && b+1 >= minBatches {
+		observe()
+		if lateID < 0 && candID < 0 && b+1 >= minBatches {
 			// stop once the first half is answered
 			r.mu.Lock()
 			done := true
@@ -1289,7 +1304,7 @@ func pTimeFlushTrickle(p *pipeCtx, idx int) {
 			break
 		}
 		time.Sleep(5 * time.Millisecond)
-		lateID, lateBy = late()
+		observe()
 	}
 	desc := map[string]any{"max_buffered_time_ms": o.MaxTime.Milliseconds(), "gap_ms": gap.Milliseconds(), "shape": shape, "batches": len(sent), "allowance_ms": allowance.Milliseconds()}
 	if lateID >= 0 {
